@@ -291,14 +291,13 @@ def rule_P6(ctx: Ctx) -> None:
         ctx.unknown(f, {"maps_over_helper": len(maps)}, exp)
         return
     kinds = sorted(X.U(m.func).split(".")[-1] for m in maps)
-    arrs = {X.U(m.args[1]) for m in maps if len(m.args) > 1}
+    arrs = {X.U(X.expand_locals(m.args[1], f.node, keep=("cfg_cpy",))) for m in maps if len(m.args) > 1}
     order_ok = all(k in ("map", "imap") for k in kinds)
     idx_ok = False
-    if len(arrs) == 1:
-        a = next(iter(arrs))
-        d = X.assignments_to(f.node, a)
-        idx_ok = len(d) == 1 and isinstance(d[0], ast.Call) and dotted_of(d[0].func) in ("np.arange", "range", "numpy.arange") and len(d[0].args) == 1 \
-            and X.U(d[0].args[0]).endswith(".n_mazes")
+    if len(arrs) == 1 and all(len(m.args) == 2 for m in maps):
+        d0 = X.expand_locals(maps[0].args[1], f.node, keep=("cfg_cpy",))
+        idx_ok = isinstance(d0, ast.Call) and dotted_of(d0.func) in ("np.arange", "range", "numpy.arange") and len(d0.args) == 1 and not d0.keywords \
+            and X.U(d0.args[0]) == "cfg_cpy.n_mazes"
     ctx.judge(f, order_ok and idx_ok, {"maps": kinds, "index_arrays": sorted(arrs)}, exp,
               "results arrive in completion order (dataset order depends on the schedule) or the branches generate different counts")
     pools = [c for c in X.calls(f.node) if X.U(c.func).endswith("Pool")]
